@@ -1,6 +1,6 @@
 """Source of MANIFEST.json (run ./tools_manifest.py after editing)."""
 
-FIX_COMMITS = ['aa8a796', 'e19c32a', '9330350', '8599158', '33efd15', '1cc24ab', '668079e', 'f34decb', 'f0c9eb4', 'f63685a', 'f41aea7', '4c9fae6', '89fa7aa', '44add83', '3e6a5c9', '24d79b7', '9b58b2c', '783304e', 'f6c2ece', '8bd765a']
+FIX_COMMITS = ['aa8a796', 'e19c32a', '9330350', '8599158', '33efd15', '1cc24ab', '668079e', 'f34decb', 'f0c9eb4', 'f63685a', 'f41aea7', '4c9fae6', '89fa7aa', '44add83', '3e6a5c9', '24d79b7', '9b58b2c', '783304e', 'f6c2ece', '8bd765a', 'debc858', '096bb2b', '9bcdd72', 'af4b9f6', 'cef733f', 'a117c80', 'b164430']
 
 _ALL = ['C%02d' % i for i in range(1, 21)]
 
@@ -151,6 +151,35 @@ CHECKS.append(dict(
          'collision domain of the <column>_<position> flattening, ids < 2^24, no 99999/NaN values; nested/CNL with a second sample '
          'covering the nests. One defect found was repaired (fix: commit).',
     technique='property-based testing (Hypothesis): protocol invariants per generated row, reference-model oracle, full-sampling equivalence, inclusion-frequency test',
+))
+
+CHECKS.append(dict(
+    id='C13',
+    text='Model-based testing: random numeric tables are driven through generated histories of up to 12 (thorough 25) interleaved '
+         'operations (remove, add_column, define_variable, values_from_database, scale_column, count, extract_rows, '
+         'sample_with_replacement, split, panel, sample_individual_map_with_replacement, generate_flat_panel_dataframe); after '
+         'every operation Database.data and the returned object are compared with an independent row model: removal flags and '
+         'new columns from the reference expression semantics, scaling and extraction exact, folds as a partition with '
+         'complements and unbroken groups, bootstrap samples by membership, the flat frame against a re-implementation of the '
+         'documented layout. Most operations see a row index with gaps; flatten_database / count_number_of_groups are also called '
+         'directly on gapped frames.',
+    note='Trusts vlib.refsem (C01 tolerance), pandas/numpy for oracle bookkeeping and labels as row identity; formulas carry no '
+         'shared sub-trees; identifier/panel columns are never scaled; a documented refusal ends a history; sample distributions '
+         'and fold sizes are not tested; tables hold at most 32 rows. Four defects found were repaired (fix: commits).',
+    technique='stateful / model-based property-based testing (Hypothesis): generated operation lists valid by construction, reference row model judged after every step',
+))
+CHECKS.append(dict(
+    id='C20',
+    text='Every deprecated alias and every renamed keyword argument of the package is discovered by introspection (120 aliases on '
+         '644 (alias, receiver) pairs, 31 keyword renamings on 353 pairs; a new alias is covered automatically) and compared with '
+         'the replacement named in its warning on identically built receivers and arguments: result or exception, state of receiver '
+         'and arguments, files written, exactly one extra DeprecationWarning, and the purpose rule for the declared target (same '
+         'normalised name / "Same as X" docstring). Each quick run sweeps every receiver class 32 times per alias.',
+    note='Trusts the markers and closure left by biogeme/deprecated.py; arguments come from per-signature generators; engine '
+         'refusals (RuntimeError or process death) are one equivalence class; differences must reproduce on separately forked '
+         'processes; floats to 1e-10, timestamps and ids normalised; retargeting is visible only through the name/docstring purpose '
+         'rule. Three defects found were repaired (fix: commits).',
+    technique='introspective discovery + differential property-based testing (Hypothesis): one sub-check per alias/keyword sweeping all receiver classes, fork isolation',
 ))
 
 _claimed = {c['id'] for c in CHECKS}
